@@ -240,6 +240,153 @@ fn check_e2e(c: &E2eCase) -> Verdict {
     pass(format!("{}|w{}", c.hash.name(), c.w), true)
 }
 
+/// A signature whose chain values sit at an explicitly chosen position vector (built by the
+/// model from the private chain starts): the verifier may accept it only if that vector is the
+/// RFC digit vector of the digest.
+#[derive(Clone, Debug, Serialize, Deserialize)]
+pub struct VerifierCase {
+    pub hash: HashId,
+    pub w: u32,
+    pub variant: u8,
+    pub tag: u64,
+}
+
+pub const VERIFIER_VARIANTS: u8 = 14;
+
+fn variant_positions(p: &OtsParams, qd: &[u8], variant: u8, tag: u64) -> (Vec<u32>, &'static str) {
+    let top = (1u32 << p.w) - 1;
+    let rfc = ots::digits(p, qd);
+    let with_cks = |val: u16| -> Vec<u32> {
+        let mut buf = qd.to_vec();
+        buf.extend_from_slice(&val.to_be_bytes());
+        (0..p.p).map(|i| ots::coef(&buf, i, p.w)).collect()
+    };
+    let sum: u32 = (0..p.u).map(|i| top - rfc[i]).sum();
+    let mut v = rfc.clone();
+    let name = match variant {
+        0 => "rfc",
+        1 => {
+            v = with_cks(sum as u16);
+            "checksum-unshifted"
+        }
+        2 => {
+            for d in v.iter_mut().skip(p.u) {
+                *d = 0;
+            }
+            "checksum-digits-zero"
+        }
+        3 => {
+            for d in v.iter_mut().skip(p.u) {
+                *d = top;
+            }
+            "checksum-digits-top"
+        }
+        4 => {
+            let i = (tag as usize) % p.u;
+            v[i] = if v[i] < top { v[i] + 1 } else { v[i] - 1 };
+            "message-digit-off-by-one"
+        }
+        5 => {
+            let i = p.u + (tag as usize) % (p.p - p.u);
+            v[i] = if v[i] > 0 { v[i] - 1 } else { v[i] + 1 };
+            "checksum-digit-off-by-one"
+        }
+        6 => {
+            v = with_cks(((sum as u64) << ((p.ls + 1) % 16)) as u16);
+            "checksum-shift-plus-one"
+        }
+        7 => {
+            v = with_cks(((sum as u64) << (p.ls.saturating_sub(1))) as u16);
+            "checksum-shift-minus-one"
+        }
+        8 => {
+            for d in v.iter_mut() {
+                *d = (*d + 1).min(top);
+            }
+            "all-chains-advanced"
+        }
+        9 => {
+            let s2: u32 = (0..p.u).map(|i| rfc[i]).sum();
+            v = with_cks((s2 << p.ls) as u16);
+            "checksum-of-digits-not-inverted"
+        }
+        10 => {
+            v = with_cks(((sum << p.ls) as u16).swap_bytes());
+            "checksum-little-endian"
+        }
+        11 => {
+            // digits taken least-significant first inside each byte
+            let mut buf = qd.to_vec();
+            buf.extend_from_slice(&((sum << p.ls) as u16).to_be_bytes());
+            let per = 8 / p.w as usize;
+            v = (0..p.p).map(|i| ots::coef(&buf, (i / per) * per + (per - 1 - i % per), p.w)).collect();
+            "digits-lsb-first"
+        }
+        12 => {
+            for d in v.iter_mut().skip(p.u) {
+                *d = top - *d;
+            }
+            "checksum-digits-complemented"
+        }
+        _ => {
+            // only the last checksum digit loses its low bits
+            let l = v.len() - 1;
+            v[l] &= !1u32;
+            if v == rfc {
+                v[l] |= 1;
+            }
+            "last-checksum-digit-low-bit"
+        }
+    };
+    (v, name)
+}
+
+fn check_verifier(ctx: &Ctx, c: &VerifierCase) -> Verdict {
+    let n = c.hash.n();
+    let m = compat_model(ctx, c.hash);
+    let p = m.ots(c.w);
+    let levels = vec![(c.w, 2u32)];
+    let seed = gen::expand(c.tag ^ 0x5eed, n);
+    let msg = gen::expand(c.tag ^ 0xfeed, 1 + (c.tag % 50) as usize);
+    let q = (c.tag % 4) as u32;
+    let (tseed, id) = hss::root_seed_and_id(&m, &seed);
+    let x = ots::private_key(&m, &p, &id, q, &tseed);
+    let rnd = gen::expand(c.tag ^ 0xc0ffee, n);
+    let qd = ots::message_digest(&m, &id, q, &rnd, &msg);
+    let want = ots::digits(&p, &qd);
+    let (pos, name) = variant_positions(&p, &qd, c.variant, c.tag >> 8);
+    let tree = crate::refmodel::lms::tree(&m, c.w, 2, &id, &tseed);
+    let mut sig = Vec::new();
+    sig.extend_from_slice(&0u32.to_be_bytes());
+    sig.extend_from_slice(&q.to_be_bytes());
+    sig.extend_from_slice(&p.typecode.to_be_bytes());
+    sig.extend_from_slice(&rnd);
+    for i in 0..p.p {
+        sig.extend_from_slice(&ots::chain(&m, &id, q, i, &x[i], 0, pos[i]));
+    }
+    sig.extend_from_slice(&crate::refmodel::h_to_lms_type(2).to_be_bytes());
+    sig.extend_from_slice(&tree.auth_path(q));
+    let pk = hss::public_key(&m, &levels, &seed);
+    let expect = pos == want;
+    if hss::verify(&m, &msg, &sig, &pk) != expect {
+        return fail("harness-model-disagrees", "internal: model verifier and digit comparison disagree");
+    }
+    for (e, r) in libapi::verify_all(c.hash, &msg, &sig, &pk).iter().enumerate() {
+        match r {
+            Out::Panic(pm) => return fail(format!("verifier-panic n={} w={}", n, c.w), format!("entry {}: {}", e, pm)),
+            Out::Ok(()) if !expect => {
+                return fail(
+                    format!("verifier-accepts-non-rfc-positions {} n={} w={}", name, n, c.w),
+                    format!("entry {} accepts a signature whose chain values sit at positions {:?} ({}), the RFC digit vector of the digest is {:?}", e, pos, name, want),
+                )
+            }
+            Out::Err if expect => return fail(cks_key(c.hash, c.w, "verifier-rejects-rfc-positions"), format!("entry {} rejects the signature at the RFC positions", e)),
+            _ => {}
+        }
+    }
+    pass(format!("{}|w{}|{}|{}", c.hash.name(), c.w, name, if expect { "accept" } else { "reject" }), true)
+}
+
 pub fn run(ctx: &Ctx) {
     ctx.set_rule("through the hook lmots_digits (append_checksum_to + coef as signing/verification use them), for all 6 hashes x 4 W: exhaustive digit extraction (every byte position x every byte value x background 0x00/0xff), exhaustive checksum encoding over every attainable checksum value 0..u(2^w-1) (value, injectivity, strict monotonicity), parameter table vs Appendix B formula, direct domination search over random digest pairs D <= D', random digests vs model, and chain positions recovered from released signatures. Non-trivial = every case except vacuous domination pairs (D' == D); distinct by serialized case.");
     ctx.assume("the hook lmots_digits calls the same append_checksum_to/coef pair as LmotsSignature::calculate_signature and lm_ots::verify::generate_public_key_candidate (checked end to end by the e2e sub-check)");
@@ -363,4 +510,22 @@ pub fn run(ctx: &Ctx) {
         }
     }
     ctx.enumerate("e2e_chain_positions", e2e.len() as u64, false, |i| e2e[i as usize].clone(), check_e2e);
+
+    // the verifier's side of the encoding: signatures whose chain values sit at chosen positions
+    let mut vc: Vec<VerifierCase> = Vec::new();
+    let vreps = ctx.tier.pick(12u64, 120u64);
+    for h in ALL_HASHES {
+        for w in WS {
+            for variant in 0..VERIFIER_VARIANTS {
+                for r in 0..vreps {
+                    vc.push(VerifierCase { hash: h, w, variant, tag: (r * 7919 + variant as u64 * 131 + w as u64) * 257 + r });
+                }
+            }
+        }
+    }
+    ctx.enumerate("verifier_chain_positions", vc.len() as u64, false, |i| vc[i as usize].clone(), |c: &VerifierCase| check_verifier(ctx, c));
+    for w in [1, 2, 4] {
+        ctx.require_class("verifier_chain_positions", &format!("sha256_192|w{}|checksum-unshifted|reject", w));
+    }
+    ctx.require_class("verifier_chain_positions", "shake256_128|w8|rfc|accept");
 }
